@@ -1,5 +1,6 @@
 import GS.Model.Loader
 import GS.Driver.Proto
+import GS.Driver.LoaderCodec
 /-! line-protocol driver for the reconciled-loader model (component `loader`).
 
 ops:   new | put <cid>… | online 0|1 | ingest <items|-> <blocks|-> | load <cid> <path|-> | retry | cleanup
@@ -7,37 +8,7 @@ ops:   new | put <cid>… | online 0|1 | ingest <items|-> <blocks|-> | load <cid
        path   = segments joined by '/'             any other line (lt / remote / note …) -> "-"
 -/
 namespace GS.Driver.Loader
-open GS.Proto GS.Loader
-
-def parsePath (s : String) : Option Path :=
-  if s == "-" then some [] else (s.splitOn "/").mapM String.toNat?
-
-def showPath (p : Path) : String :=
-  if p.isEmpty then "-" else joinWith "/" (p.map toString)
-
-def parseAction : Char → Option Action
-  | 'p' => some .present | 'd' => some .dupNotSent | 'm' => some .missing | 's' => some .dagSkipped
-  | _ => none
-
-def parseItem (s : String) : Option (Cid × Action) :=
-  match s.toList.reverse with
-  | a :: rest => do
-    let act ← parseAction a
-    let c ← (String.ofList rest.reverse).toNat?
-    pure (c, act)
-  | [] => none
-
-def parseItems (s : String) : Option (List (Cid × Action)) :=
-  if s == "-" then some [] else (s.splitOn ",").mapM parseItem
-
-def parseBlock (s : String) : Option (Cid × Blk) :=
-  match s.splitOn "=" with
-  | [k] => do let k ← k.toNat?; pure (k, k)
-  | [k, b] => do let k ← k.toNat?; let b ← b.toNat?; pure (k, b)
-  | _ => none
-
-def parseBlocks (s : String) : Option (List (Cid × Blk)) :=
-  if s == "-" then some [] else (s.splitOn ",").mapM parseBlock
+open GS.Proto GS.Loader GS.Driver.LoaderCodec
 
 def showResult (r : Result) : String :=
   let l := if r.loc then "L1" else "L0"
